@@ -3,7 +3,8 @@
 # runs the property's check against the copy and compares with the expectation.
 # usage: run.sh [name-glob]    (default: all)
 export GOFLAGS=-mod=mod GOPROXY=off GOSUMDB=off GOTOOLCHAIN=local
-V=/verif
+V=${V:-/verif}
+REPO=${REPO:-/repo}   # agents: V=$W/verif REPO=$W/repo selftest/run.sh 'c11-*'
 pat=${1:-*}
 ok=0; bad=0
 for d in $V/selftest/mutants/$pat/ $V/seeded/$pat/; do
@@ -12,13 +13,15 @@ for d in $V/selftest/mutants/$pat/ $V/seeded/$pat/; do
   prop=$(python3 -c "import json;print(json.load(open('$d/meta.json'))['property'])")
   expect=$(python3 -c "import json;print(json.load(open('$d/meta.json')).get('expect','violation'))")
   scratch=$(mktemp -d /tmp/govc-selftest.XXXXXX)
-  rsync -a --exclude .git /repo/ $scratch/
+  rsync -a --exclude .git $REPO/ $scratch/
   if ! (cd $scratch && patch -p1 -s < $d/patch.diff); then echo "SELFTEST $name: patch does not apply"; bad=$((bad+1)); rm -rf $scratch; continue; fi
-  out=$(${GOVC_BIN:-$V/bin/govc} check -p $prop -repo $scratch -verif $V -noevidence 2>&1); code=$?
+  out=$(${GOVC_BIN:-$V/bin/govc} check -p $prop -repo $scratch -verif $V -noevidence ${PAR:+-par $PAR} 2>&1); code=$?
   rm -rf $scratch
   if [ "$expect" = violation ]; then
     if [ $code -eq 1 ] && echo "$out" | grep -q "^VIOLATION property=$prop"; then echo "SELFTEST $name: caught ($(echo "$out" | grep -c '^VIOLATION') obligations, first: $(echo "$out" | grep '^VIOLATION' | head -1 | sed 's/.*obligation=//'))"; ok=$((ok+1));
     else echo "SELFTEST $name: MISSED (exit $code)"; echo "$out" | tail -3; bad=$((bad+1)); fi
+  elif [ "$expect" = missed ]; then
+    if [ $code -eq 0 ]; then echo "SELFTEST $name: documented miss (not caught, see meta.json)"; ok=$((ok+1)); else echo "SELFTEST $name: documented miss is now CAUGHT (exit $code) - update meta.json"; ok=$((ok+1)); fi
   else
     if [ $code -eq 0 ]; then echo "SELFTEST $name: stays green"; ok=$((ok+1)); else echo "SELFTEST $name: FALSE ALARM (exit $code)"; echo "$out" | grep -E "VIOLATION|UNDECIDED" | head -5; bad=$((bad+1)); fi
   fi
